@@ -148,6 +148,7 @@ struct OpEnumerator
             add(base, T_GROUP, G_SIZE_BYTES, (int)gi, g.end, gl + ".size_bytes");
             add(base, T_GROUP, G_ITER, (int)gi, g.end, gl + ".iterate");
             if(gs.flat) add(base, T_GROUP, G_ITER_INDEXED, (int)gi, g.end, gl + ".iterator arithmetic");
+            if(gs.flat) add(base, T_GROUP, G_ITER_FORMS, (int)gi, g.end, gl + ".iterator forms (n + it, it - n, it++, it--, --it, relations)");
             if(cnt)
             {
                 add(base, T_GROUP, G_FRONT, (int)gi, g.end, gl + ".front");
